@@ -16,7 +16,10 @@ def pRefOp? (s : String) : Option RefOp :=
   else if s.startsWith ">" then
     match (s.drop 1).toString.splitOn ":" with
     | ["P", c, c'] => match pNat? c, pNat? c' with
-      | some c, some c' => some (RefOp.retarget c c')
+      | some c, some c' => some (RefOp.retarget (.extPoly c) (.extPoly c'))
+      | _, _ => none
+    | ["U", r, r'] => match pNat? r, pNat? r' with
+      | some r, some r' => some (RefOp.retarget (.upoly r) (.upoly r'))
       | _, _ => none
     | _ => none
   else none
@@ -46,5 +49,28 @@ def checkRefs (args res : List String) : Verdict :=
        go (RefState.init ctxRing) ops snaps 0
      | _, _ => .skip "bad refs line")
   | _, _ => .skip "bad refs shape"
+
+/-- `refs vdb <ops> => <id=name;…>`: ids distinct, every name retrievable -/
+def checkVdb (args res : List String) : Verdict :=
+  match args, res with
+  | [opsS], [gotS] =>
+    let ops := (opsS.splitOn ",").map (fun o =>
+      match ((o.drop 1).toString).splitOn ":" with
+      | [i, n] => (pNat? i).map (fun i => (o.startsWith "a", i, n))
+      | _ => none)
+    if ops.any (·.isNone) then .skip "bad vdb line" else
+    let ops := ops.filterMap id
+    let ids := ops.map (·.2.1)
+    let got := (gotS.splitOn ";").map (fun e => match e.splitOn "=" with | [i, n] => (pNat? i).map (fun i => (i, n)) | _ => none)
+    if got.any (·.isNone) then .skip "bad vdb result" else
+    let got := got.filterMap id
+    match (List.range ids.length).find? (fun k => (ids.take k).contains (ids.getD k 0)) with
+    | some k => .viol "refs-vdb" s!"operation {k} returned / used the id {ids.getD k 0} that was already taken"
+    | none =>
+      if got.length ≠ ops.length then .viol "refs-vdb" "result list has the wrong length" else
+      match (ops.zip got).find? (fun p => p.1.2.1 ≠ p.2.1 ∨ p.1.2.2 ≠ p.2.2) with
+      | some p => .viol "refs-vdb" s!"variable {p.1.2.1} was named {p.1.2.2} but get_name answers {p.2.2}"
+      | none => .ok s!"refs/vdb/{if ops.any (·.1) then "with-add" else "new-only"}"
+  | _, _ => .skip "bad vdb shape"
 
 end LP.Driver
